@@ -89,6 +89,7 @@ var checks = []Check{
 		Technique:   "preemption/delay-bounded stateless schedule exploration of the real relay goroutines with input enumeration",
 		Assumptions: append([]string{"vnet models orderly close, half-close, reset, linger 0, and - where a scenario bounds the socket buffers - back-pressure and TCP_USER_TIMEOUT; other kernel behaviours (RST on close with unread data, partial writes, keep-alive) are outside the model"}, engineAssumptions...),
 		Jobs: []Job{
+			{Pkg: "proc/tcp", Scenarios: []string{"C06/histories"}, Shards: 16, QuickS: 60, ThoroughS: 240}, // a relay to a usable member is not closed because of what happens to other hosts
 			{Pkg: "proc/tcp", Scenarios: []string{"C05/relay"}, Shards: 16, QuickS: 90, ThoroughS: 240},
 			{Pkg: "proc/tcp", Scenarios: []string{"C05/stack-race"}, Race: true, Shards: 1, QuickS: 120, ThoroughS: 240},
 			{Pkg: "proc/tcp", Scenarios: []string{"C05/two-connections", "C05/paced", "C05/slow-receiver", "C05/arrivals"}, Shards: 8, QuickS: 60, ThoroughS: 240},
